@@ -80,11 +80,14 @@ type JobH struct {
 }
 
 type H struct {
-	mu     sync.Mutex
-	parked []*Parked
-	Jobs   []*JobH
-	ByUUID map[string]*JobH
-	bySch  map[*taskctl.Scheduler]*JobH
+	// OutputStore, if set, is used by the controlled runner like the real runner uses it: the output files of a task
+	// are created when its Run passes the context check
+	OutputStore taskctl.OutputStore
+	mu          sync.Mutex
+	parked      []*Parked
+	Jobs        []*JobH
+	ByUUID      map[string]*JobH
+	bySch       map[*taskctl.Scheduler]*JobH
 	// index to assign to a job whose runner is created before ScheduleAsync returned
 	Stuck string
 }
@@ -253,6 +256,14 @@ func (c *CtlRunner) Run(t *task.Task) error {
 	}
 	c.job.Seen[t.Name] = strings.Join(t.Commands, ";") + "|" + env
 	c.h.mu.Unlock()
+	if c.h.OutputStore != nil {
+		for _, stream := range []string{"stdout", "stderr"} {
+			if w, err := c.h.OutputStore.Writer(c.job.UUID, t.Name, stream); err == nil {
+				_, _ = w.Write([]byte(c.job.UUID + "/" + t.Name + "/" + stream + "\n"))
+				_ = w.Close()
+			}
+		}
+	}
 	if len(t.Commands) == 0 {
 		c.h.mu.Lock()
 		c.job.RunEnded[t.Name]++
